@@ -20,7 +20,7 @@ Oracle (the property statement):
       - every leaf of the ExprCond tree of IRDst's value is an ExprLoc / ExprInt; anything else (register,
         memory, computed value: an indirect jump) is class `indirect`, counted, never a violation
       - every ExprId is one of the architecture's registers (regs.all_regs_ids, exception_flags) or the
-        lifter's IRDst                                                  (foreign-id)
+        lifter's IRDst              (foreign-id:<register family>, one signature per target, mnemonics in `what`)
       - the IRCFG has an edge block -> L for every ExprLoc leaf L of the block's IRDst, and an edge to the
         location of the offset for every ExprInt leaf                   (missing-edge:loc / missing-edge:int)
 """
@@ -28,6 +28,7 @@ import collections
 import contextlib
 import gc
 import io
+import re
 
 from mc import insngen as g
 from mc.runner import violation
@@ -64,16 +65,16 @@ BOUNDS = {
     # quick (sized for about a minute on a machine whose load is 5x its cores; ~10 s on an idle one): curated vectors
     # of every target; all single-bit flips for three native-order targets with short curated lists; cube for one byte
     # order per architecture (decode tables and semantics are shared, the byte order only permutes the bytes fetched)
-    # with the 16-bit axis restricted to the multiples of 32 (stride) and, for x86, one ModRM byte x one tail
+    # with the 16-bit axis restricted to the multiples of 64 (stride) and, for x86, one ModRM byte x one tail
     "quick": {
         "curated": _T,
         "bitflip": ["x86_16", "ppc32b", "msp430"],
         "bytesub": [],
         "cube": g.cube_dims({
-            "fixed32": {"lo": 1, "hi": 0, "stride": 32},
-            "thumb": {"ext": 1, "stride": 32},
-            "msp430": {"ext": 1, "stride": 32},
-            "word16": {"ext": 1, "stride": 32},
+            "fixed32": {"lo": 1, "hi": 0, "stride": 64},
+            "thumb": {"ext": 1, "stride": 64},
+            "msp430": {"ext": 1, "stride": 64},
+            "word16": {"ext": 1, "stride": 64},
             "x86": {"prefix": 3, "maps": 2, "second": 1, "tail": 1},
         }, _NAT),
         "shard": 512, "bundles": 16,
@@ -257,7 +258,8 @@ def lift_once(name, raw, a, instr=None):
                 _ids(src, acc, seen)
         foreign = sorted((x for x in acc if x not in ok_ids and x != irdst), key=str)
         if foreign:
-            kinds.append(("foreign-id", ", ".join("%s/%d" % (x, x.size) for x in foreign[:4])))
+            fam = sorted(set(re.sub(r"[0-9]+", "#", str(x)) for x in foreign))
+            kinds.append(("foreign-id:" + ",".join(fam), ", ".join("%s/%d" % (x, x.size) for x in foreign[:4])))
         if n_dst != 1:
             kinds.append(("irdst-count:%s" % (n_dst if n_dst < 2 else "many"), "block %s sets IRDst %d times" % (lk, n_dst)))
             continue
@@ -294,7 +296,9 @@ def judge(name, raw, first=None):
             counters["wellformed"] += 1
         for kind, detail in kinds:
             mnemo = g.base_mnemonic(name, instr.name)
-            sig = "%s|%s|%s" % (name, mnemo, kind)
+            # one signature per (target, register family) for foreign registers: the mnemonic does not matter
+            folded = kind.startswith("foreign-id:")
+            sig = "%s|%s|%s" % (name, "*" if folded else mnemo, kind)
             if sig in done:
                 continue
             done.add(sig)
@@ -302,8 +306,11 @@ def judge(name, raw, first=None):
                 txt = str(instr)
             except Exception:
                 txt = instr.name
-            vs.append(violation(sig, "%s %s (%s) at %s: %s" % (name, bytes(instr.b).hex(), " ".join(txt.split()), a, detail),
-                                {"target": name, "raw": raw}))
+            v = violation(sig, "%s %s (%s) at %s: %s" % (name, bytes(instr.b).hex(), " ".join(txt.split()), a, detail),
+                          {"target": name, "raw": raw})
+            if folded:
+                v["mnemo"] = mnemo
+            vs.append(v)
     return counters, vs
 
 
@@ -320,14 +327,7 @@ def _shard(shard):
         if sample is None and c.get("wellformed"):
             sample = {"target": name, "bytes": bytes(instr.b).hex(), "text": " ".join(str(instr).split())}
         for v in vs:
-            k = (len(instr.b), bytes(instr.b))
-            cur = best.get(v["sig"])
-            if cur is None:
-                best[v["sig"]] = [k, v, 1]
-            else:
-                cur[2] += 1
-                if k < cur[0]:
-                    cur[0], cur[1] = k, v
+            g.note_best(best, v, (len(instr.b), bytes(instr.b)))
     keys = stats.pop("_keys", [])
     return name, shard[1], stats, dict(counters), best, sample, keys
 
